@@ -136,7 +136,6 @@ func (w *world) main() {
 		inner = fl
 	}
 	pw := ioutil.NewProgressWriter(inner)
-	status := pw.Status()
 	closeSignal := simrt.MakeChan[struct{}](0)
 
 	sizes := []int{0, 1, 7, 4096, 32 * 1024, 64 * 1024}
@@ -183,6 +182,9 @@ func (w *world) main() {
 				simrt.Sleep(time.Duration(1+ch("late.ms", 5)) * time.Millisecond)
 				simrt.Probe("consumer_late")
 			}
+			// a consumer asks for the channel when it starts consuming, which
+			// for the absent and late ones is after the writing has begun
+			status := pw.Status()
 			for {
 				v, ok := status.Recv2()
 				if !ok {
@@ -247,7 +249,7 @@ func (w *world) main() {
 	} else if w.got[len(w.got)-1].seq > w.closeRet {
 		w.violate("close-returned-early", "Close() returned before the final total was received")
 	}
-	if _, ok, ready := status.TryRecv(); !ready || ok {
+	if _, ok, ready := pw.Status().TryRecv(); !ready || ok {
 		w.violate("not-closed", "the status channel is not closed after Close()")
 	}
 	for _, t := range simrt.Tasks() {
